@@ -143,6 +143,10 @@ class Down(object):
             a, stray = int(a[5:]), True
         self.drv.log(t='peer', stage=stage, i=i, act=a if isinstance(a, str) else 'code', code=a if isinstance(a, int) else 0,
                      conn=self.conn, trans=self.trans, m=self.marker if stage in ('mail', 'rcpt', 'data', 'eod', 'rset') else 0)
+        if a == 'late':
+            # answered 250, but only when the next command has arrived (a reply that is late, not missing)
+            self.pending_late = ('250 r250 %s late\r\n' % stage).encode()
+            return None
         if a == 'stall':
             self.stalled = True
             return None
@@ -193,6 +197,11 @@ class Down(object):
                 if k < 0:
                     return
                 line, self.inbuf = self.inbuf[:k + 1], self.inbuf[k + 1:]
+                if getattr(self, 'pending_late', None):
+                    self.out += self.pending_late
+                    self.pending_late = None
+                    self.ev.set()
+                    self._sync()
                 verb = line.strip().split(b' ')[0].upper()
                 if verb in (b'EHLO', b'LHLO'):
                     self.act('ehlo', self.round)
